@@ -4,7 +4,9 @@ Label values and the relative order of absorptions inside one phase are *not* pa
 events are classified by the datum they absorb.
 R-C04-1  every datum class (both commitment-generator kinds, bit length, extension degree, aggregation factor, every commitment,
          every promise with None as 0, A; every L and R; A1 and B) is absorbed, whole and in order, from the caller's statement /
-         proof, on every accepted path
+         proof, on every accepted path; to the end (a loop that absorbs a datum element by element leaves only when the elements run
+         out or by refusing); as it is (no in-place change between datum and absorption) and through encodings only (compress /
+         to_bytes / as_bytes ..: a unary function that is not an encoding between a stored datum and the absorbed bytes is reported)
 R-C04-2  absorbed-before-challenge: each class precedes every challenge that the protocol draws after it (y, z; each round e in
          the same iteration as its L, R; the final e)
 R-C04-3  context: every event acts on the caller-supplied transcript; no fresh or cloned transcript on the proof path
@@ -19,7 +21,7 @@ LEVEL_TEXT = ('Static analysis (structured trace of merlin boundary calls over M
               'every public parameter, statement datum and prover message is absorbed into the caller\'s transcript, whole and in order, on every '
               'accepted path before each challenge that follows it in the protocol, in prover and verifier alike. Assumes merlin frames labels and '
               'lengths (distinct (label, data) sequences give distinct states); does not decide hash collision resistance. What is absorbed must be the '
-              'datum itself: an in-place change (zeroize, fill, copy_from_slice, store) between the datum and the absorption is reported.')
+              'datum itself: an in-place change (zeroize, fill, copy_from_slice, store) between the datum and the absorption is reported, so is a function that is not an encoding, and so is an absorption loop that a discarded failure can end early.')
 ASSUMPTIONS = ['merlin::Transcript::append_message / append_u64 / challenge_bytes bind label and length (STROBE framing)',
                'reverse post-order of must-executed blocks respects execution order (MIR from structured source is reducible)']
 RULE_TEXT = ('one obligation per datum class and role (present, whole, from the right source, on every path), one per challenge (absorbed-before), one per '
